@@ -98,6 +98,31 @@ func reordered(f *descriptorpb.FileDescriptorProto) *descriptorpb.FileDescriptor
 	return f
 }
 
+// TreeRule gives some services a third method, Tree, whose single binding shares
+// route-tree nodes with the Tree bindings of OTHER services in every way a node
+// can be shared: SvcB binds an interior node; below it hang a variable child
+// (SvcC) and a literal child (SvcD); below those a literal under the variable
+// (SvcE), a variable under the literal (SvcF) and a literal chain (SvcG). Dropping
+// the owner of one of them must never take a neighbour's route away.
+var TreeRule = map[string]string{
+	"SvcB": "/fxt",
+	"SvcC": "/fxt/{f_string}",
+	"SvcD": "/fxt/lit",
+	"SvcE": "/fxt/{f_string}/deep",
+	"SvcF": "/fxt/lit/{f_string}",
+	"SvcG": "/fxt/lit/deep/er",
+}
+
+// TreeProbe is a path that only the service's own Tree binding matches.
+var TreeProbe = map[string]string{
+	"SvcB": "/fxt",
+	"SvcC": "/fxt/cval",
+	"SvcD": "/fxt/lit",
+	"SvcE": "/fxt/eval/deep",
+	"SvcF": "/fxt/lit/fval",
+	"SvcG": "/fxt/lit/deep/er",
+}
+
 func svcFile(path string, names ...string) *descriptorpb.FileDescriptorProto {
 	var svcs []*descriptorpb.ServiceDescriptorProto
 	for _, n := range names {
@@ -108,6 +133,12 @@ func svcFile(path string, names ...string) *descriptorpb.FileDescriptorProto {
 			// disappears (404), so "route found, no handler" (501) is never a consistent state
 			dyn.MethodSpec{Name: "Solo", In: ".un.All", Out: ".un.All",
 				Rule: &annotations.HttpRule{Pattern: &annotations.HttpRule_Get{Get: "/fxsolo/" + strings.ToLower(n)}}}))
+	}
+	for _, sv := range svcs {
+		if tr, ok := TreeRule[sv.GetName()]; ok {
+			sv.Method = append(sv.Method, dyn.Svc("x", dyn.MethodSpec{Name: "Tree", In: ".un.All", Out: ".un.All",
+				Rule: &annotations.HttpRule{Pattern: &annotations.HttpRule_Get{Get: tr}}}).Method[0])
+		}
 	}
 	f := dyn.File(path, "un", nil, nil, svcs)
 	f.Dependency = append(f.Dependency, "un.proto")
